@@ -5,7 +5,7 @@
    emits against it.  `exec` is the engine model (Engine.v), `sem` the plan-independent denotation (Sem.v). *)
 Require Import KV.Sparql.Base KV.Sparql.Syntax KV.Sparql.MuProofs KV.Sparql.JoinProofs KV.Sparql.Algebra KV.Sparql.Engine
         KV.Sparql.PlanEquiv KV.Sparql.Sem KV.Sparql.ScanProofs KV.Sparql.BgpProofs KV.Sparql.HashProofs KV.Sparql.SemProofs
-        KV.Sparql.ExecLemmas KV.Sparql.GroupProofs KV.Sparql.EngineProofs KV.Sparql.PlanProofs KV.Sparql.MemoKey.
+        KV.Sparql.ExecLemmas KV.Sparql.IdemProofs KV.Sparql.GroupProofs KV.Sparql.EngineProofs KV.Sparql.PlanProofs KV.Sparql.MemoKey.
 Require Import Permutation.
 
 (* Join of solution multisets is commutative and associative (up to permutation / as lists). *)
@@ -27,11 +27,11 @@ Print Assumptions C02_hash_join_eq_nested.
    ok_in inb l: every FILTER / BIND-argument variable is certainly bound by the plan it applies to or bound by no
    incoming row, no BIND target is bound by an incoming row, sub-selects are order-insensitive - the complement of the
    known classes C01-undef-filter-sibling / C01-bind-target-sibling (= C02-..-plan-dependence).
-   nodup_groups l: no same-scope scan group lists the same quad pattern twice (the star rewrite re-appends such a
-   pattern; that case is left to the correspondence check - partial). *)
+   store_sets st: every graph of the store is a set of triples (C04) - what makes a scan idempotent under join, so that
+   the star rewrite may list a pattern of its group again. *)
 Theorem C02_exec_input_join :
-  forall st ev, named_nodup ev ->
-  forall l p, implementsb l p = true -> nodup_groups l = true ->
+  forall st ev, named_nodup ev -> store_sets st ->
+  forall l p, implementsb l p = true ->
   forall inb active inc, ok_in inb l = true -> all_wf inc -> dom_in inb inc ->
     exec st ev active p inc ≡ₚ join inc (sem st ev active l).
 Proof. exact exec_sem. Qed.
@@ -41,23 +41,23 @@ Print Assumptions C02_exec_input_join.
    {bind, hash, nested-loop} at every join node, table or index scans, the star rewrite - give the same solution
    multiset; and that multiset is the plan-independent denotation. *)
 Theorem C02_plan_independent :
-  forall st ev, named_nodup ev ->
-  forall l p1 p2, implementsb l p1 = true -> implementsb l p2 = true -> nodup_groups l = true -> ok_in [] l = true ->
+  forall st ev, named_nodup ev -> store_sets st ->
+  forall l p1 p2, implementsb l p1 = true -> implementsb l p2 = true -> ok_in [] l = true ->
   forall active, exec st ev active p1 [[]] ≡ₚ exec st ev active p2 [[]].
 Proof. exact plan_independent. Qed.
 Print Assumptions C02_plan_independent.
 
 Theorem C02_implements_sem :
-  forall st ev, named_nodup ev ->
-  forall l p, implementsb l p = true -> nodup_groups l = true -> ok_in [] l = true ->
+  forall st ev, named_nodup ev -> store_sets st ->
+  forall l p, implementsb l p = true -> ok_in [] l = true ->
   forall active, exec st ev active p [[]] ≡ₚ sem st ev active l.
 Proof. exact implements_sem. Qed.
 Print Assumptions C02_implements_sem.
 
 Theorem C02_bind_hash_eq_nested :
-  forall st ev, named_nodup ev ->
+  forall st ev, named_nodup ev -> store_sets st ->
   forall l1 l2 p1 p2, scan_scope (LJoin l1 l2) = None ->
-    implementsb l1 p1 = true -> implementsb l2 p2 = true -> nodup_groups (LJoin l1 l2) = true ->
+    implementsb l1 p1 = true -> implementsb l2 p2 = true ->
   forall inb active inc, ok_in inb (LJoin l1 l2) = true -> all_wf inc -> dom_in inb inc ->
     exec st ev active (XBindJoin p1 p2) inc ≡ₚ exec st ev active (XNLJoin p1 p2) inc /\
     exec st ev active (XHashJoin p1 p2) inc ≡ₚ exec st ev active (XNLJoin p1 p2) inc.
@@ -90,6 +90,6 @@ Print Assumptions C02_memo_key_collision_refuted.
 Example C02_example :
   let l := LJoin (LValues [0%N] [[Some "1"%string]; [None]]) (LValues [0%N; 1%N] [[Some "1"%string; Some "2"%string]]) in
   implementsb l (XHashJoin (XValues [0%N] [[Some "1"%string]; [None]]) (XValues [0%N; 1%N] [[Some "1"%string; Some "2"%string]])) = true /\
-  nodup_groups l = true /\ ok_in [] l = true /\ named_nodup wit_ev.
-Proof. repeat split; try reflexivity. constructor. Qed.
+  ok_in [] l = true /\ named_nodup wit_ev /\ store_sets wit_st.
+Proof. repeat split; try reflexivity; [constructor | intro n; constructor]. Qed.
 
